@@ -2,7 +2,7 @@
 import re
 
 from mirlib import AnchorMissing, path_matches
-from helpers import vexpr, loop_of, must_pass, field_accesses
+from helpers import vexpr, loop_of, must_pass, field_accesses, try_edges
 
 
 def r_symbols_per_file(r, prog):
@@ -89,6 +89,29 @@ def r_results_attached_to_own_file(r, prog):
             r.ok('file.%s := element %d of this file\'s parse result' % (fld, idx))
         else:
             r.finding('parse-result-misattached:%s' % fld, pf.span, 'file.%s is assigned %s, not element %d of the result of parsing this file' % (fld, (ex or 'nothing')[:80], idx))
+    # ... on every path that follows a successful parse (a file without a module still has attributes)
+    ps2 = [c for c in pf.calls() if c.name() == 'parse_slice_file']
+    stores = {}
+    for bb, j, lhs, rv, s in pf.assigns():
+        if lhs['l'] == 1 and not pf.blocks[bb].get('cleanup'):
+            names = [x.get('n') for x in lhs.get('p', []) if isinstance(x, dict) and 'f' in x]
+            if names and names[-1] in wanted:
+                stores.setdefault(names[-1], []).append(bb)
+    for c in pf.calls():
+        if c.dest is not None and c.dest['l'] == 1 and not pf.blocks[c.bb].get('cleanup'):
+            names = [x.get('n') for x in c.dest.get('p', []) if isinstance(x, dict) and 'f' in x]
+            if names and names[-1] in wanted:
+                stores.setdefault(names[-1], []).append(c.target if c.target is not None else c.bb)
+    if len(ps2) == 2:
+        edges = [(b, ok, err) for b, ok, err in try_edges(pf, ps2[1]) if ok != err]
+        rets = [i for i, blk in enumerate(pf.blocks) if blk['t']['k'] == 'return']
+        if not edges:
+            raise AnchorMissing('the success test of the Slice parser result in parse_file')
+        for fld in wanted:
+            if stores.get(fld) and all(must_pass(pf, ok, rets, stores[fld]) for b, ok, err in edges):
+                r.ok('file.%s is stored on every path that follows a successful parse' % fld)
+            else:
+                r.finding('parse-result-not-stored:%s' % fld, pf.span, 'after a successful parse there is a path to the end of parse_file that does not store file.%s' % fld)
     # the text parsed is the file's own raw_text, preprocessed
     ps = [c for c in pf.calls() if c.name() == 'parse_slice_file']
     if len(ps) == 2:
@@ -100,4 +123,4 @@ def r_results_attached_to_own_file(r, prog):
             r.finding('parse-input-source', pf.span, 'preprocessor input is %s, parser input is %s' % (a[:60], b[:60]))
     else:
         raise AnchorMissing('two parse_slice_file calls in parse_file')
-    r.floor(4)
+    r.floor(7)
